@@ -223,7 +223,7 @@ func (d *c20drv) run(c *verifsim.Chooser, st *Stats, render bool) *Outcome {
 			script = strings.NewReplacer("hv(", "print(", "h(", "string(").Replace(script)
 		case 3:
 			script = c20DrvLoops[c.Intn(len(c20DrvLoops))]
-			timeout = []string{"1ms", "250us", "3ms", "1us"}[c.Intn(4)]
+			timeout = []string{"1ms", "250us", "3ms", "1us", "-5ms"}[c.Intn(5)]
 		default:
 			base := c20DrvScripts[c.Intn(len(c20DrvScripts))]
 			script, _ = (&c08{}).mutate(c, base)
@@ -302,6 +302,14 @@ func (d *c20drv) run(c *verifsim.Chooser, st *Stats, render bool) *Outcome {
 	}
 	args = append(args, flags...)
 	args = append(args, "script.in")
+	// sometimes a second script on the same command line: nothing of the
+	// first run may leak into the second (context, document)
+	second := ""
+	if kind == 2 && sub == "run" && scriptFault == "" && c.Intn(6) == 1 {
+		second = c20DrvScripts[c.Intn(16)]
+		files["second.in"] = &verifsim.SimFile{Data: []byte(second)}
+		args = append(args, "second.in")
+	}
 	sc := &scenario{Args: args, Files: files, HardCap: 400000}
 	o.Digest.Str(strings.Join(args, " ") + "|" + script + "|" + doc + "|" + docFault + scriptFault)
 
@@ -392,7 +400,11 @@ func (d *c20drv) run(c *verifsim.Chooser, st *Stats, render bool) *Outcome {
 	var ctx *verifsim.SimContext
 	if timeout != "" {
 		dur, _ := time.ParseDuration(timeout)
-		ctx = verifsim.NewSimContext(int64(dur) / 1000)
+		ticks := int64(dur) / 1000
+		if dur <= 0 {
+			ticks = 0 // a deadline in the past: expired from the start
+		}
+		ctx = verifsim.NewSimContext(ticks)
 		ctx.HardCap = 400000
 		e.SetContext(ctx)
 	}
@@ -417,7 +429,7 @@ func (d *c20drv) run(c *verifsim.Chooser, st *Stats, render bool) *Outcome {
 	if r.Failed {
 		if !strings.Contains(res.stdout, r.Err) {
 			o.violate("C20/driver", sig+" error-not-reported", "Execute fails with %q on this document; the driver printed: %s", r.Err, clip(res.stdout, 400))
-		} else if strings.Contains(res.stdout, "Script gave result") {
+		} else if second == "" && strings.Contains(res.stdout, "Script gave result") {
 			o.violate("C20/driver", sig+" result-and-error", "Execute fails with %q but the driver also reports a result", r.Err)
 		}
 		if strings.Contains(r.Err, "timeout") {
@@ -433,6 +445,55 @@ func (d *c20drv) run(c *verifsim.Chooser, st *Stats, render bool) *Outcome {
 	}
 	if !strings.Contains(res.stdout, "type:"+r.Type) && !strings.Contains(res.stdout, r.Type) {
 		o.violate("C20/driver", sig+" wrong-report", "type %s not reported", r.Type)
+	}
+	if second != "" {
+		// the second script's report must be there too, after the first's
+		e2 := evalfilter.New(second)
+		var ctx2 *verifsim.SimContext
+		if timeout != "" {
+			dur, _ := time.ParseDuration(timeout)
+			t2 := int64(dur) / 1000
+			if dur <= 0 {
+				t2 = 0
+			}
+			ctx2 = verifsim.NewSimContext(t2)
+			ctx2.HardCap = 400000
+			e2.SetContext(ctx2)
+		}
+		if err2, esc2 := doPrepare(e2, !noOpt); esc2 == nil {
+			rest := res.stdout
+			if i := strings.Index(rest, r.Inspect); i >= 0 {
+				rest = rest[i+len(r.Inspect):]
+			}
+			if err2 != nil {
+				if !strings.Contains(rest, err2.Error()) {
+					o.violate("C20/driver", sig+" second-script", "the second script does not compile (%v) but the output after the first report does not say so: %s", err2, clip(rest, 300))
+				}
+			} else {
+				var r2 RawResult
+				obj2 := make(map[string]interface{})
+				if haveDoc {
+					json.Unmarshal([]byte(doc), &obj2)
+				}
+				under(ctx2, func() { r2 = doExecuteRaw(e2, obj2) })
+				verifsim.TakeStdout()
+				switch {
+				case r2.Escaped != nil:
+				case r2.Failed:
+					if !strings.Contains(rest, r2.Err) {
+						o.violate("C20/driver", sig+" second-script", "the second script fails with %q when run by itself; output after the first report: %s", r2.Err, clip(rest, 300))
+					}
+				default:
+					for _, tok := range []string{r2.Type, r2.Inspect, fmt.Sprint(r2.Truth)} {
+						if !strings.Contains(rest, tok) {
+							o.violate("C20/driver", sig+" second-script", "the second script gives type=%s value=%q truth=%v when run by itself; output after the first report lacks %q: %s", r2.Type, r2.Inspect, r2.Truth, tok, clip(rest, 300))
+							break
+						}
+					}
+				}
+			}
+		}
+		return o
 	}
 	// black-box smoke: the shipped binary prints the same bytes on real files
 	if d.real != "" && docFault == "" && timeout == "" && !debug && c.Intn(12) == 1 {
